@@ -441,6 +441,25 @@ func bootstrapTable(c *core.Ctx, s *bootstrapSubject, maxLen int) (rs rows, runs
 				ip0 := absint.New(t)
 				ip0.IsLog = core.IsLogCall
 				ip0.InScope = c.InScope
+				// the delegate as its constructor makes it (helper objects it owns included)
+				if ctor := constructorOf(c, s.recv); ctor != nil {
+					if out := ip0.Run(ctor, nil, nil); out.Undecided == nil && out.Panic == nil && len(out.Ret) == 1 {
+						if made, ok := out.Ret[0].(*absint.Tok); ok {
+							for k, v := range made.Fields {
+								dlg.Fields[k] = v
+							}
+						}
+					}
+				}
+				// every processor of the table has the same Go type (they differ in name, laziness and capabilities)
+				if idFn := c.Func("util/reflectx", "Id"); idFn != nil {
+					t.callee[idFn] = func(ip *absint.Interp, a []absint.Value) absint.Value {
+						if tok, ok := a[0].(*absint.Tok); ok {
+							return absint.Str("type-of:" + tok.Class)
+						}
+						return &absint.Opaque{Why: "text"}
+					}
+				}
 				for i := 1; i <= n; i++ {
 					p := absint.NewTok(fmt.Sprintf("P%d", i), "processor")
 					p.Attr["lazy"] = absint.Bool(isLazy(i))
@@ -564,4 +583,22 @@ func bootstrapTable(c *core.Ctx, s *bootstrapSubject, maxLen int) (rs rows, runs
 		}
 	}
 	return
+}
+
+// constructorOf: the parameterless in-scope function of T's package that returns a *T it has just made.
+func constructorOf(c *core.Ctx, T *types.Named) *ssa.Function {
+	var found *ssa.Function
+	for _, fn := range c.Scope {
+		if fn.Parent() != nil || fn.Signature.Recv() != nil || len(fn.Params) != 0 || fn.Signature.Results().Len() != 1 || fn.Pkg == nil || fn.Pkg.Pkg != T.Obj().Pkg() {
+			continue
+		}
+		if core.NamedOf(fn.Signature.Results().At(0).Type()) != T {
+			continue
+		}
+		if found != nil {
+			return nil // more than one: the table keeps the zero-valued object
+		}
+		found = fn
+	}
+	return found
 }
